@@ -154,9 +154,9 @@ mtext('C12',
 from .rules import scanner  # noqa: E402
 
 
-def _arm_atomic(ctx, rep):
-    from .rules import lexical
-    lexical.rule_arm_atomic(ctx, rep)
+def _arm_atomic(ctx, rep):  # A8b, evaluation based
+    from .rules import lexeval
+    lexeval.rule_reject_inert(ctx, rep)
 
 
 def _policy_table(ctx, rep):
@@ -165,8 +165,8 @@ def _policy_table(ctx, rep):
 
 
 def _sep_mark(ctx, rep):
-    from .rules import lexical
-    lexical.rule_sep_mark(ctx, rep)
+    from .rules import lexeval
+    lexeval.rule_sep_mark(ctx, rep)
 
 reg(Prop('C15', 'other', [scanner.rule_scanner_structure, scanner.rule_iterator_structure],
          "Decides the driver structure of the token-stream contract on MIR: B14-SCANNER (FindNumbers::push) — \"-\" and whitespace tokens return before any state is touched; a not_a_number_part token can reach neither parser.push nor number_advanced, ends the number in progress and still updates `previous`; the word presented to the parser is the token's lowercase text or the constant \",\", the latter exactly under has_number() && nt_separated(previous); number_advanced is reachable only from Ok edges with the unmodified enumerate position; Err(Incomplete) neither advances, ends nor breaks; reject -> number_end -> retry with the token's own text; `previous` updated on every other path. B14-ITERATOR — lazy and batch drivers call the same push/finalize with the same arguments, the iterator tests has_matches() before reading and after every single token and returns pop() when true, finalizes on exhaustion, nothing is read by the constructor, the stream is read only by Iterator::next and track_numbers, both drain FIFO (pop_front / into over a push_back-only queue). Does NOT decide equality of the two result sequences for all streams nor the exact look-ahead bound (run-time quantities of the hold/release automaton)."))
@@ -239,20 +239,20 @@ mtext('C09',
       'static analysis: field read/write inventory + guard facts for the threshold; finite-domain abstract interpretation of NumTracker::number_end (24 cases) and of the breaker condition (8 rows)',
       'DESIGN.md §2 B8 B16, §4 C09')
 
-from .rules import lexical  # noqa: E402
+from .rules import lexical, lexeval  # noqa: E402
 
-reg(Prop('C01', 'other', [lexical.rule_lex_card, lexical.rule_scale_contexts, lexical.rule_compose_contexts, lexical.rule_split_closure, lexical.rule_zero_arm, lexical.rule_guard_atoms],
+reg(Prop('C01', 'other', [lexeval.rule_lex_card, lexical.rule_scale_contexts, lexical.rule_compose_contexts, lexeval.rule_split_closure, lexeval.rule_zero_arm, lexeval.rule_conj, lexeval.rule_neg_contexts],
          "Decides the lexical mechanism of the cardinal round-trip: A1 — every core cardinal form of the frozen reference lexicon (7 languages, ~330 forms incl. plural/inflected scale words, regional tens, national variants) selects, through partial evaluation of the language's lemmatizer source, an arm of the word table whose placing leaves are exactly the instruction its class prescribes for its value (put of its digits; de/nl tens put_digit_at(d,1); lexical hundreds put d00; hundred/thousand/million/milliard shift 2/3/6/9; it mille put 1000; fr vigesimal triples with the 60/80/4 predecessor tests), and apply(word) evaluated on an abstract fresh builder returns Ok with that one instruction; A3 — splitter patterns and arm keys agree (every pattern has an arm, every compounding word is a pattern, patterns non-empty and distinct) and every piece of every generated compound spelling (de/it/nl, n <= 999 quick, <= 9999 thorough) selects an arm; A6 zero arms; A7 scale-word guards (3,5)/(6,8) and the unit/tens separation guards. Does NOT decide that the composition of correct instructions yields decimal(n) for every n < 10^12 and context, nor 'never split in two': that depends on run-time buffer contents."))
-reg(Prop('C04', 'other', [lexical.rule_lex_ord, lexical.rule_group_ordinal, lexical.rule_split_closure, builder.rule_frozen_first, lexical.rule_sep_mark],
+reg(Prop('C04', 'other', [lexeval.rule_lex_ord, lexical.rule_group_ordinal, lexeval.rule_split_closure, builder.rule_frozen_first, lexeval.rule_sep_mark],
          "Decides the lexical mechanism of the ordinal round-trip: A2 — every core ordinal form and inflection of the reference lexicon (~750 forms) selects an arm whose placing leaves equal those of the cardinal of its rank; apply(form) evaluated on an abstract fresh builder (es 'segundo' after an ordinal) returns Ok, sets marker = Ordinal(<expected marker for that inflection>) — which evaluates the source of get_morph_marker and of the postlude on the form — and freezes the builder where the language does so; A3 closure for compound stems; B4 a frozen builder refuses every further word; A5 format_and_value renders digits followed by the marker. Does NOT decide the composition for every rank up to 10^6 (same reason as C01)."))
-reg(Prop('C05', 'other', [lexical.rule_dec_table, lexical.rule_sep_mark, scanner.rule_decimal_entry, scanner.rule_reset_must, builder.rule_field_coverage],
+reg(Prop('C05', 'other', [lexeval.rule_dec_table, lexeval.rule_sep_mark, scanner.rule_decimal_entry, scanner.rule_reset_must, builder.rule_field_coverage],
          "Decides: A4 (en/de decimal tables map each digit word to push(b\"d\"), zero synonyms share an arm, default NaN; fr/es/pt/it/nl apply_decimal forwards to apply verbatim), A5 (is_decimal_sep evaluates to true exactly on the separator word; the text template is {int}<mark>{dec} with mark '.' for English and ',' otherwise, filled with int.to_string(), dec.to_string() in that order; the value is the parse of {int}.{dec} of the same strings), B7-DECIMAL-ENTRY (decimal mode entered only for a rejected word, not already decimal, non-empty non-ordinal integer part, separator word; returns Incomplete — a separator with no number before it stays a word), B7-RESET-MUST (decimal formatter iff is_dec && !dec_part.is_empty(), otherwise the integer: nothing usable after the separator falls back to the integer; parser reset on every path), B6. Does NOT decide that arbitrary integer x fraction shapes round-trip (the fractional grammar of five languages goes through apply, i.e. C01's composition)."))
-reg(Prop('C08', 'other', [lexical.rule_guard_atoms, lexical.rule_block_contexts, lexical.rule_conj, lexical.rule_zero_arm, builder.rule_write_guarded],
+reg(Prop('C08', 'other', [lexeval.rule_neg_contexts, lexical.rule_block_contexts, lexeval.rule_flags_lifecycle, lexeval.rule_conj, lexeval.rule_zero_arm, builder.rule_write_guarded],
          "Decides A7 GUARD-ATOMS: every arm of each sibling class carries the class guard and side assignments that keep adjacent numbers apart (en units peek(2) != 10; es additionally != 20; pt units/teens/tens !smaller_blocked, hundreds !only_multipliers with the flag definitions and three-way flag update; it units peek(2) != 10, un*/otto* is_free(2), ordinal stems is_empty; de/nl units is_free(2) + to_block = TENS, tens !blocked(TENS); fr un..six guarded by their own Excludable bit, dix sets UN_SIX, tens set UN; thousand is_range_free(3,5), million (6,8); success stores / failure clears the flags), A10 (the conjunction is only ever Err(Incomplete) under the class guard), A6 (zero arms), B5 (overlap refusal and zero-only-while-empty inside the builder). Does NOT decide the 10^4-pair outcome table per language nor the grouping of dictated digit strings (needs execution of the guards on concrete buffers)."))
-reg(Prop('C16', 'other', [lexical.rule_zero_arm, lexical.rule_len_zero_sensitive, lexical.rule_zero_invariance, builder.rule_write_guarded, builder.rule_field_coverage],
+reg(Prop('C16', 'other', [lexeval.rule_zero_arm, lexical.rule_zero_invariance, builder.rule_write_guarded, builder.rule_field_coverage],
          "Decides: A6 (zero words select an unguarded put(b\"0\"), synonyms share the arm), B5 (a zero is accepted only on an empty buffer and counted; all-zero input refused otherwise), B6 (len/is_empty/to_string include the zero count, is_null does not; reset clears it), A9 (no guard or arm condition tests DigitString::len() for equality with a constant — the zero-sensitive single-digit test behind the rejected 'zero un milione'). Does NOT decide convert(zero^k spell(n)) = 0^k decimal(n) for all n (C01's composition)."))
 
-reg(Prop('C18', 'other', [lexical.rule_o_annotate, lexical.rule_zero_arm, lexical.rule_dec_table, scanner.rule_scratch_hygiene, scanner.rule_scanner_structure],
+reg(Prop('C18', 'other', [lexeval.rule_o_annotate, lexeval.rule_zero_arm, lexeval.rule_dec_table, scanner.rule_scratch_hygiene, scanner.rule_scanner_structure],
          "Decides: 'o' is a pattern of the very arm of 'zero' in apply and apply_decimal (treated exactly like zero); English::basic_annotate has the shape: candidate = tokens[i] with lowercase text \"o\"; it is marked not-a-number (the only set_nan in the pass) exactly in the else-branch of `(j > 0 && apply(tokens[S[j-1]]).is_ok()) || (j+1 < S.len() && apply(tokens[S[j+1]]).is_ok())` where S = indices of tokens that are not whitespace-only (Unicode predicate; punctuation counts as neighbour) and j enumerates S; the scratch builder is fresh at each apply (B7-SCRATCH-HYGIENE) and marked tokens never enter an occurrence (B14 S2). Does NOT decide the full neighbour-combination table, in particular neighbours that apply accepts only in some builder states."))
 
 mtext('C01',
